@@ -8,7 +8,7 @@
    never blocks forever (holds since the dispatcher hand-off was repaired). *)
 From Coq Require Import NArith ZArith List Bool Lia.
 From Opcua Require Import Model.RecvBase Model.RecvCrypto Model.RecvMerge Model.RecvChan Model.RecvFrame
-  Proofs.RecvBaseProofs Proofs.RecvCryptoProofs Proofs.RecvMergeProofs Proofs.RecvFrameProofs.
+  Proofs.RecvBaseProofs Proofs.RecvCryptoProofs Proofs.RecvMergeProofs Proofs.RecvFrameProofs Gen.RecvLocks.
 Import ListNotations.
 
 (* the Receive loop over a stream of frames: every frame is read, a chunk that comes out is buffered / merged *)
@@ -51,6 +51,13 @@ Proof.
   - cbn [length]. f_equal. now apply IH.
   - exfalso. now apply (Hnp p Hok).
 Qed.
+
+(* The model treats one frame as one atomic, total step.  In the code the buffering part of that step runs under s.chunksMu;
+   the step is only atomic-and-terminating if every way out of Receive's loop body releases the mutex.  This is checked on
+   the source: Gen.RecvLocks lists every return / continue of SecureChannel.Receive with the lock state it is reached
+   in (go/ast path analysis, regenerated on every run). *)
+Theorem C13_receive_releases_lock : receive_lock_balanced = true /\ (0 < receive_lock_sites)%Z.
+Proof. vm_compute. split; reflexivity. Qed.
 
 Open Scope N_scope.
 
@@ -123,6 +130,7 @@ Qed.
 
 Print Assumptions C13_no_panic.
 Print Assumptions C13_progress.
+Print Assumptions C13_receive_releases_lock.
 Print Assumptions C13_partial_per_request_id.
 Print Assumptions C13_refuted_request_ids_unbounded.
 Print Assumptions C13_dispatch_never_blocks.
